@@ -3,6 +3,7 @@ Who-may-write / who-may-register rules (DESIGN.md section 4, C10)."""
 import re
 
 import common
+from mir import agg_direct
 from common import map_access_mode, map_call_kind
 from mir import agg_stmts
 
@@ -34,6 +35,7 @@ def run(ctx):
     R6 = rep.rule('C10.R6', 'registering as reloadable implies caching in the same operation', floor=2)
     S1 = rep.rule('C05.R2', 'registration happens exactly after a successful load, with the dependencies of that load (shared with C05)', floor=1)
     R8 = rep.rule('C10.R8', 'AssetMap::insert runs on_insert if and only if the entry was stored (inside the keep-first insertion, which holds the lock of the map)', floor=2)
+    R9 = rep.rule('C10.R9', 'a removed asset stops being reloadable: DepsGraph::remove_asset resets `typ` of (or deletes) the node of its key whenever the graph knows that key', floor=1)
     R7 = rep.rule('C10.R7', 'type descriptors are honest: hot_reloaded mirrors the declared HOT_RELOADED constants, which forward from Asset to Compound to Storable', floor=6)
     for cfg, F in ctx.cfgs():
         hr = 'hot-reloading' in ctx.cfg_features[cfg]
@@ -54,7 +56,8 @@ def run(ctx):
         r5(R5, cfg, F)
         r6(R6, cfg, F)
         r8(R8, cfg, F)
-        for r in (R2, R3, R4, R5, R6, R8):
+        r9(R9, cfg, F)
+        for r in (R2, R3, R4, R5, R6, R8, R9):
             r.finish_cfg(cfg)
 
 
@@ -383,6 +386,63 @@ def r6(R6, cfg, F):
         regs_owned = F.calls_to(r'^hot_reloading::HotReloader::add_owned_asset$')
         if regs_owned:
             R6.missing(cfg, 'DepsGraph::insert_owned_asset')
+
+
+GRAPH_MAP = re.compile(r'HashMap<hot_reloading::records::Dependency, hot_reloading::dependencies::GraphNode')
+GRAPH_OCC = re.compile(r'hash_map::(Occupied)?Entry<.*hot_reloading::records::Dependency, hot_reloading::dependencies::GraphNode')
+
+
+def r9(R9, cfg, F):
+    """remove / take tell the reloader RemoveAsset(key); its handler ends in DepsGraph::remove_asset.  After it the key must
+    not be reloadable any more (a value later stored there with get_or_insert would be overwritten by a reload): on every
+    path on which the node of the key was found, its `typ` becomes None or the node is deleted -- whatever else the
+    function looks at (dependents, dependencies)."""
+    b = F.body(D + 'DepsGraph::remove_asset')
+    if not b:
+        R9.missing(cfg, 'DepsGraph::remove_asset')
+        return
+    look = [c for c in b.calls() if c.callee and c.args and c.args[0]['k'] in ('copy', 'move') and GRAPH_MAP.search(c.args[0]['place']['ty'])
+            and c.callee.name in ('get', 'get_mut', 'get_key_value', 'contains_key', 'entry', 'remove', 'remove_entry')
+            and len(c.args) > 1 and common.value_built_from(b, c.args[1], at=c.bb) == ['arg2']]
+    resets = set()
+    for bb, j, st in b.assigns():
+        pl = st['place']
+        if pl['p'] and isinstance(pl['p'][-1], dict) and pl['p'][-1].get('n') == 'typ' and pl['p'][-1].get('of') == D + 'GraphNode':
+            rv = st['rv']
+            if rv['k'] == 'use':
+                lit = agg_direct(b, rv['op'])
+                rv = lit['rv'] if lit is not None else rv
+            if rv['k'] == 'aggregate' and rv.get('variant_name') == 'None':
+                resets.add(bb)
+    for c in b.calls():
+        if c.callee and c.args and c.args[0]['k'] in ('copy', 'move') and c.callee.name in ('remove', 'remove_entry') \
+                and (GRAPH_MAP.search(c.args[0]['place']['ty']) and len(c.args) > 1 and common.value_built_from(b, c.args[1], at=c.bb) == ['arg2']
+                     or GRAPH_OCC.search(c.args[0]['place']['ty'])):
+            resets.add(c.bb)
+    ok = bool(look) and bool(resets)
+    why = 'shape: no look-up of the key in the graph / no `typ = None`'
+    if ok:
+        rets = set(b.return_blocks())
+        for c in look:
+            if c.bb in resets:
+                continue
+            if c.callee.name == 'contains_key':
+                found = [bb for bb in sorted(b.live_blocks(unwind=False)) if any(x is c and truth for x, truth in common.call_truth_guards(b, bb))]
+                if not found:
+                    ok, why = False, 'shape: the result of contains_key is not tested'
+                    break
+            else:
+                sw = b.primary_switch(c.dest['l'])
+                some = b.variant_edge(sw, 1) if sw is not None else None
+                found = [some] if some is not None else None
+                if not found:
+                    ok, why = False, 'shape: the result of `%s` is not matched' % c.callee.name
+                    break
+            if b.reachable(found, removed_blocks=list(resets)) & rets:
+                ok = False
+                why = 'on some path the node of the removed key is found and left reloadable (its `typ` is neither reset nor the node deleted)'
+                break
+    R9.check(ok, cfg, b.path, 'found-node-stops-being-reloadable', 'DepsGraph::remove_asset: %s' % why, b.loc())
 
 
 def r8(R8, cfg, F):
